@@ -3898,6 +3898,48 @@ func runHOFARGS(c *Ctx, r *Result, rule string, fns []*ssa.Function) int {
 				}
 			}
 			for k := int64(0); k+2 < at.Len(); k++ {
+				// the list is built in a helper from its parameters: judged at the helper's calls
+				if pi, isP := elems[k].(*ssa.Parameter); isP {
+					pa, isPA := elems[k+2].(*ssa.Parameter)
+					vo, isVO := elems[k+1].(*ssa.Call)
+					if !isPA || !isVO || staticName(vo) != "reflect.ValueOf" || !isReflectValue(pi.Type()) || !isReflectValue(pa.Type()) {
+						continue
+					}
+					sites, ok := c.staticCallers(f)
+					if !ok || len(sites) == 0 {
+						continue
+					}
+					ii, ia := -1, -1
+					for i, q := range f.Params {
+						if q == pi {
+							ii = i
+						}
+						if q == pa {
+							ia = i
+						}
+					}
+					for _, cs := range sites {
+						args := cs.Common().Args
+						if ii < 0 || ia < 0 || ii >= len(args) || ia >= len(args) {
+							continue
+						}
+						item, isCall := args[ii].(*ssa.Call)
+						if !isCall || staticName(item) != "reflect.Value.Index" || len(item.Call.Args) != 2 {
+							continue
+						}
+						ord++
+						n++
+						o := Obligation{Rule: rule, Key: fmt.Sprintf("%s:callback-args#%d", shortFn(cs.Parent()), ord), Fn: shortFn(cs.Parent()), Pos: c.W.Pos(cs.Pos()), Nontrivial: true}
+						X, A := item.Call.Args[0], args[ia]
+						if A == X || (bndCtx != nil && bndCtx.canon(A) == bndCtx.canon(X)) {
+							o.Verdict, o.Reason = Discharged, "the third callback argument (handed to "+shortFn(f)+") is the array the member was read from"
+						} else {
+							o.Verdict, o.Reason = Finding, "the callback's whole-array argument is "+describeVal(A)+" while the member is read from "+describeVal(X)+": for an argument that is not an array the callback sees the bare value instead of the one-member array it stands for"
+						}
+						r.Add(o)
+					}
+					continue
+				}
 				item, isCall := elems[k].(*ssa.Call)
 				if !isCall || staticName(item) != "reflect.Value.Index" || len(item.Call.Args) != 2 {
 					continue
